@@ -378,9 +378,11 @@ class C10(PropertyCheck):
 
     def theorems_for(self, case):
         if case["kind"] == "blurring":
-            return ["C10.blurring_defined_iff", "C10.blurring_unmasks_exactly"]
+            return ["C10.blurring_defined_iff", "C10.blurring_unmasks_exactly", "C10.blurring_even_rejected"]
+        if case["kind"] == "util":
+            return ["C10.edge_slim_spec", "C10.edge_contains_and_excludes", "C10.border_iff"]
         return ["C10.edge_slim_spec", "C10.edge_contains_and_excludes", "C10.border_iff",
-                "C10.views_denote_same_pixels"]
+                "C10.native_views", "C10.mask_views", "C10.grid_views"]
 
 
 CHECK = C10()
